@@ -15,7 +15,6 @@
 (***************************************************************************)
 EXTENDS TraceBase, V3Score
 
-VARIABLE l
 
 BaseTab  == TLCGet(42)     \* MC_V3Base's table: ver \o base codes -> tenth
 InnerTab == TLCGet(41)     \* MC_V3Env's table
@@ -84,9 +83,7 @@ Init == /\ InstallV3Tables
         /\ TLCSet(41, JsonDeserialize(IOEnv.VERIF_GEN \o "/v3envinner.json"))
         /\ TLCSet(42, JsonDeserialize(IOEnv.VERIF_GEN \o "/v3base.json"))
         /\ LoadTrace
-        /\ l = 1
-Next == /\ l <= Len(Trace)
-        /\ LET v == Verdict(Trace[l]) IN IF v = "ok" THEN TRUE ELSE Report(l, v, "")
-        /\ l' = l + 1
-Spec == Init /\ [][Next]_l
+        /\ TraceInit
+Next == (l <= Len(Trace) /\ Step(Verdict(Trace[l]))) \/ Finish
+Spec == Init /\ [][Next]_<<l, nbad>>
 =============================================================================
